@@ -24,8 +24,8 @@ float is written with the text that `add_float` prints for the `f32` / `f64` rea
 a parameter of the model, DESIGN.md 2.2). One tolerated deviation is part of `agree`: the non-strict reader accepts an
 identifier where the definition has a string, with a diagnostic, and writes it back as a quoted string.
 
-History. Four defects that the first version of this file recorded as refuted statements were FIXED in the Rust code
-(testdata/fixes.diff), and the model follows the fixed code:
+History. Five defects (four of them recorded as refuted statements in the first version of this file) were FIXED in the Rust code
+(testdata/fixes.diff, testdata/fix5.diff), and the model follows the fixed code:
 * a comment between two items of uninterpreted content ended `parse_unknown_taggedstruct` and made the whole load fail
   with `InvalidBegin`; `unknown_values_roundtrip` needed the hypothesis "no comment directly in front of a /begin".
   Now the comment is skipped; the hypothesis is gone (`unknown_comment_between_blocks_kept` is the old counterexample,
@@ -35,6 +35,9 @@ History. Four defects that the first version of this file recorded as refuted st
 * an array whose element can be empty was repeated `dim` times: `array_zero_width_stops`.
 * `1e999` (and `1e300` for a `float` member) was read as infinity and written as `inf`; now `MalformedNumber` (on the
   model side the float codec parameters simply have no entry for such a token).
+* a member of a tagged struct that is not defined as `("TAG" ...)*` was accepted any number of times; now the second
+  occurrence is `InvalidMultiplicityTooMany` (which ends the attempt to interpret the content): `duplicate_member_rejected`,
+  and `Conf` has the same restriction.
 Statements that are still FALSE for the code as it is (kept as theorems with a concrete input):
 * `conforming_accepted_needs_unambiguity`: the sequence loop is greedy, so an instance of a definition in which a
   sequence is followed by a member of the same token class is not recognised (inherent in the format).
@@ -567,8 +570,9 @@ theorem specialSim_false_for_ifdata : ¬ SpecialSim (simEnv true) := by
 
 `Conf strict f32 sp l` (Lemmas/IfDataConf.lean, an inductive relation written from the A2ML rules and independent of
 the interpreter): the comment-free token list `l` is an instance of the definition `sp`: scalars by token class and
-range, `char[n]` strings, arrays element by element, enum items by name, struct members in order, sequences and
-tagged structs with any number of elements, tagged members by tag and block-ness, blocks closed by `/end TAG`. -/
+range, `char[n]` strings, arrays element by element, enum items by name, struct members in order, sequences with any
+number of elements, tagged structs with any number of members of which those not defined as `("TAG" ...)*` occur at
+most once, tagged members by tag and block-ness, blocks closed by `/end TAG`. -/
 
 /-- the rules for the scalars and strings, as an illustration that `Conf` is what it is meant to be -/
 example (strict : Bool) (f32 : List Char → Option (List Char)) (w : Nat) (t : PTok) (r : Int × Bool)
@@ -578,7 +582,7 @@ example (strict : Bool) (f32 : List Char → Option (List Char)) (items : List S
 example (strict : Bool) (f32 : List Char → Option (List Char)) (items : List (Tagged Spec)) (tg : Tagged Spec)
     (b t e t' : PTok) (body : List PTok) (h1 : lookupTagged items t.text = some tg) (h2 : tg.isBlock = true)
     (hb : b.ty = 1) (ht : t.ty = 0) (hbody : Conf strict f32 tg.item body) (he : e.ty = 2) (ht' : t'.ty = 0)
-    (htag : t'.text = t.text) : ConfTag strict f32 items (b :: t :: body ++ [e, t']) :=
+    (htag : t'.text = t.text) : ConfTag strict f32 items (b :: t :: body ++ [e, t']) t.text :=
   .block h1 h2 hb ht hbody he ht' htag
 
 /-- **`valid_implies_conforming`** (one half of `conforming_accepted`): whatever `parse_ifdata` flags as valid is,
@@ -591,6 +595,42 @@ theorem valid_implies_conforming (e : Env) (f32 : List Char → Option (List Cha
 theorem item_implies_conforming (e : Env) (f32 : List Char → Option (List Char)) (sp : Spec) (ctx : Ctx)
     (s s' : PState) (g : Gen) (hs : s.pos ≤ e.toks.size) (h : itemP f32 sp ctx e s = .ok g s') :
     Conf e.strict f32 sp (span e.toks s.pos s'.pos) := (itemP_conf f32 sp ctx s g s' hs h).2.2
+
+theorem TagsOk_def (rep : List Char → Bool) (tags : List (List Char)) :
+    TagsOk rep tags ↔ tags.Pairwise (fun a b => a = b → rep a = true) := Iff.rfl
+theorem repOf_def (items : List (Tagged Spec)) (tag : List Char) :
+    repOf items tag = (match lookupTagged items tag with | some t => t.rep | none => false) := rfl
+
+/-- **`duplicate_member_rejected`**: what the interpreter accepts for a tagged struct never has two items of a member
+    that is not defined as `("TAG" ...)*`: the tags of the items are pairwise different except for repeating members.
+    (`parse_ifdata_taggedstruct` returns `InvalidMultiplicityTooMany` after it has read the second item; inside
+    `parse_ifdata` this only ends the attempt, the content is then kept by the fallback and flagged invalid. The
+    same restriction is part of `Conf`, so `valid_implies_conforming` says it for nested tagged structs as well.) -/
+theorem duplicate_member_rejected (e : Env) (f32 : List Char → Option (List Char)) (items : List (Tagged Spec))
+    (ctx : Ctx) (s s' : PState) (g : Gen) (h : itemP f32 (.taggedStruct items) ctx e s = .ok g s') :
+    ∃ vs, g = .taggedStruct vs ∧ (vs.map (·.tag)).Pairwise (fun a b => a = b → repOf items a = true) :=
+  itemP_taggedStruct_tagsOk f32 items ctx s s' g h
+
+/-- `block "IF_DATA" taggedstruct { "A" uint; ("R" uint)*; };` -/
+def dupSpec : Spec := .taggedStruct [⟨['A'], .int 5, false, false⟩, ⟨['R'], .int 5, false, true⟩]
+
+/-- `R 1 R 2 A 3 /end`: the repeating member twice: valid -/
+example : resOf (parseIfdata exF32 [dupSpec] exCtx (specialEnv
+    #[tk 0 ['R'], tk 5 ['1'], tk 0 ['R'], tk 5 ['2'], tk 0 ['A'], tk 5 ['3'], tk 2 "/end".toList, tk 0 "IF_DATA".toList]
+    true) {}) =
+    some ([.ident ['R'], .int 5 1 false, .ident ['R'], .int 5 2 false, .ident ['A'], .int 5 3 false], true, 6) := by
+  decide +kernel
+/-- `A 1 R 2 A 3 /end`: the non-repeating member twice: not accepted by the definition, kept as uninterpreted data
+    (the fallback reads identifiers and `i32` numbers), flagged invalid -/
+example : resOf (parseIfdata exF32 [dupSpec] exCtx (specialEnv
+    #[tk 0 ['A'], tk 5 ['1'], tk 0 ['R'], tk 5 ['2'], tk 0 ['A'], tk 5 ['3'], tk 2 "/end".toList, tk 0 "IF_DATA".toList]
+    true) {}) =
+    some ([.ident ['A'], .int 2 1 false, .ident ['R'], .int 2 2 false, .ident ['A'], .int 2 3 false], false, 6) := by
+  decide +kernel
+/-- the error that ends the attempt -/
+example : errOf (itemP exF32 dupSpec exCtx (specialEnv
+    #[tk 0 ['A'], tk 5 ['1'], tk 0 ['A'], tk 5 ['3'], tk 2 "/end".toList, tk 0 "IF_DATA".toList] true) {}) =
+    some .invalidMultiplicityTooMany := by decide +kernel
 
 /-- `struct { taggedstruct { "A" (uint)*; }; uint; }`: a greedy sequence followed by a member of the same token class -/
 def ambSpec : Spec := .struct [.taggedStruct [⟨['A'], .seq (.int 5), false, false⟩], .int 5]
@@ -608,8 +648,9 @@ theorem conforming_accepted_needs_unambiguity :
   refine ⟨?_, by decide +kernel⟩
   have hs : span ambToks 0 3 = [tk 0 ['A'], tk 5 ['1']] ++ ([tk 5 ['2']] ++ []) := by rfl
   rw [hs]
-  refine .struct (.cons (.taggedStruct ?_) (.cons (.int (r := (2, false)) rfl (by decide)) .nil))
-  show ConfTags _ _ _ ([tk 0 ['A'], tk 5 ['1']] ++ [])
+  refine .struct (.cons (.taggedStruct (tags := [['A']]) ?_ (List.pairwise_singleton _ _))
+    (.cons (.int (r := (2, false)) rfl (by decide)) .nil))
+  show ConfTags _ _ _ ([tk 0 ['A'], tk 5 ['1']] ++ []) _
   refine .cons (.kw (tg := ⟨['A'], .seq (.int 5), false, false⟩) (by rfl) rfl rfl ?_) .nil
   show Conf _ _ _ ([tk 5 ['1']] ++ [])
   exact .seq (n := 1) (.succ (.int (r := (1, false)) rfl (by decide)) .zero)
